@@ -50,6 +50,10 @@ mod netconf;
 mod policies;
 mod task;
 
+#[cfg(feature = "verif")]
+#[allow(missing_docs, clippy::missing_errors_doc, unreachable_pub, missing_debug_implementations)]
+pub mod verif;
+
 // silence unused dev-dependency warnings
 #[cfg(test)]
 mod deps {
